@@ -509,6 +509,114 @@ def removeColG (tr : Bool) (s : Sheet) (col : List Char) : Status × Sheet :=
     let rows := s.rows.map fun r => { r with cells := eraseFirst (fun x => Facts.C06.removeColMatch (Ref.numToName x.c.toNat) x.c col num) r.cells }
     adjustHelperG tr { s with rows := rows } .cols num (-1)
 
+/-! ## DuplicateRowTo (rows.go) -/
+
+/-- `duplicateSQRefHelper` over one sqref: the single-row references on `row`, moved to `row2`;
+`none` = `coordinatesToRangeRef` fails -/
+def dupSq (row row2 : Int) : List Rect → Option (List Rect)
+  | [] => some []
+  | q :: qs =>
+    if q.y1 = q.y2 ∧ q.y1 = row then
+      let q' : Rect := { q with y1 := row2, y2 := row2 }
+      if rectOk q' then (dupSq row row2 qs).map (q' :: ·) else none
+    else dupSq row row2 qs
+
+/-- `duplicateConditionalFormat` / `duplicateDataValidations`: the copies to append (in order);
+`none` = error (nothing has been appended yet) -/
+def dupSqItems (row row2 : Int) : List SqItem → Option (List SqItem)
+  | [] => some []
+  | it :: its =>
+    match dupSq row row2 it.rects with
+    | none => none
+    | some [] => dupSqItems row row2 its
+    | some rs => (dupSqItems row row2 its).map ({ it with rects := rs } :: ·)
+
+/-- both helpers look at the position of the source row after the insertion -/
+def srcAfter (row row2 : Int) : Int := if row > row2 then row + 1 else row
+
+def dupSqStep (row row2 : Int) (its : List SqItem) : Status × List SqItem :=
+  match dupSqItems (srcAfter row row2) row2 its with
+  | none => (.err, its)
+  | some extra => (.ok, its ++ extra)
+
+/-- first loop of `duplicateMergeCells`: `some true` = the target row lies strictly inside a merged range
+(nothing is duplicated), `none` = a reference that does not parse -/
+def dupMergeScan (row2 : Int) : List (Option Rect) → Option Bool
+  | [] => some false
+  | none :: _ => none
+  | some q :: ms => if q.y1 < row2 ∧ row2 < q.y2 then some true else dupMergeScan row2 ms
+
+/-- `MergeCell(x1 row2, x2 row2)` on the grid: the row's cell slots are filled up to the last merged column
+(`prepareSheetXML`), every merged cell but the first loses type, value and formula (`setCellDefault("")`,
+`removeFormula`), the style stays -/
+def mergeRowCells (x1 x2 : Int) (r : Row) : Row :=
+  let lo := if x2 < x1 then x2 else x1
+  let hi := if x2 < x1 then x1 else x2
+  let filled := r.cells ++ ((List.range (hi.toNat - r.cells.length)).map fun k =>
+    (⟨((r.cells.length + k : Nat) : Int) + 1, r.r, 0, blankTok⟩ : Cell))
+  { r with cells := if lo = hi then r.cells else
+      filled.zipIdx.map fun (x, j) => if lo < (j : Int) + 1 ∧ (j : Int) + 1 ≤ hi then { x with v := blankTok } else x }
+
+/-- second loop of `duplicateMergeCells` over the merges present before it started -/
+def dupMergeApply (src row2 : Int) : List (Option Rect) → Sheet → Status × Sheet
+  | [], s => (.ok, s)
+  | none :: ms, s => dupMergeApply src row2 ms s
+  | some q :: ms, s =>
+    if q.y1 = q.y2 ∧ q.y1 = src then
+      let m : Rect := ⟨if q.x2 < q.x1 then q.x2 else q.x1, row2, if q.x2 < q.x1 then q.x1 else q.x2, row2⟩
+      if rectOk m then
+        dupMergeApply src row2 ms
+          { s with merges := s.merges ++ [some m],
+                   rows := s.rows.zipIdx.map fun (r, k) => if (k : Int) + 1 = row2 then mergeRowCells q.x1 q.x2 r else r }
+      else (.err, s)
+    else dupMergeApply src row2 ms s
+
+def dupMerges (row row2 : Int) (s : Sheet) : Status × Sheet :=
+  match dupMergeScan row2 s.merges with
+  | none => (.err, s)
+  | some true => (.ok, s)
+  | some false => dupMergeApply (srcAfter row row2) row2 s.merges s
+
+/-- the three entries of `duplicateHelperFunc`, by method name -/
+def runDupHelper (name : String) (row row2 : Int) (s : Sheet) : Status × Sheet :=
+  if name = "duplicateConditionalFormat" then
+    let (st, x) := dupSqStep row row2 s.cfs; (st, { s with cfs := x })
+  else if name = "duplicateDataValidations" then
+    let (st, x) := dupSqStep row row2 s.dvs; (st, { s with dvs := x })
+  else if name = "duplicateMergeCells" then dupMerges row row2 s
+  else (.ok, s)
+
+def runDupHelpers : List String → Int → Int → Sheet → Status × Sheet
+  | [], _, _, s => (.ok, s)
+  | a :: as, row, row2, s =>
+    match runDupHelper a row row2 s with
+    | (.ok, s') => runDupHelpers as row row2 s'
+    | (st, s') => (st, s')
+
+/-- the copy lands in the slot of `row2`; beyond the last slot the row list is padded with empty rows -/
+def placeCopy (rows : List Row) (row2 : Int) (copy : Row) : List Row :=
+  match rows.findIdx? (fun r => r.r == row2) with
+  | some i => rows.set i copy
+  | none =>
+    rows ++ ((List.range ((row2 - 1).toNat - rows.length)).map fun k =>
+      (⟨((rows.length + k : Nat) : Int) + 1, false, "-", []⟩ : Row)) ++ [copy]
+
+/-- `DuplicateRowTo` (formula payloads are carried unchanged: C07) -/
+def duplicateRowToG (tr : Bool) (s : Sheet) (row row2 : Int) : Status × Sheet :=
+  if row < 1 then (.err, s)
+  else if row2 < 1 ∨ row = row2 then (.ok, s)
+  else
+    match adjustHelperG tr s .rows row2 1 with
+    | (.ok, s1) =>
+      match s.rows.find? (fun r => r.r == row) with
+      | none => (.ok, s1)
+      | some rc =>
+        runDupHelpers Facts.C06.dupHelpers row row2
+          { s1 with rows := placeCopy s1.rows row2 (bumpRow (row2 - row) rc) }
+    | (st, s1) => (st, s1)
+
+def duplicateRowTo (s : Sheet) (row row2 : Int) := duplicateRowToG false s row row2
+
 def insertRows (s : Sheet) (row n : Int) := insertRowsG false s row n
 def removeRow (s : Sheet) (row : Int) := removeRowG false s row
 def insertCols (s : Sheet) (col : List Char) (n : Int) := insertColsG false s col n
